@@ -66,6 +66,17 @@ def run(run):
         fs = bad_sites[sg]
         run.problems.append(Problem("direct", sg, {"what": "value.Discard(x) outside the discipline (static fact)", "sites": ["%s:%d" % (f["file"], f["line"]) for f in fs], "why": fs[0]["why"]},
                                     concrete=False, signature=sg))
+    # the conversions themselves: a value.To* that hands back its argument makes every "fresh" site unsafe
+    conv_bad = []
+    dfp = LEAN / "Csvq" / "Gen" / "DiscardFacts.lean"
+    if ok1 and dfp.exists():
+        _, _, tail = dfp.read_text().partition("def conversionFacts")
+        for m in re.finditer(r'\("(\w+)", (true|false), "((?:[^"\\]|\\.)*)"\)', tail):
+            if m.group(2) == "false":
+                conv_bad.append(m.group(1))
+                sg = "conversion:value.%s:notFresh" % m.group(1)
+                run.problems.append(Problem("direct", sg, {"what": "a value.To* conversion has a return statement that is not a value.New* call (it may hand back its argument, which callers then Discard)",
+                                                           "where": unq(m.group(3))}, concrete=False, signature=sg))
     ast_sites = {}
     for f in shared:
         ast_sites.setdefault("astwrite:%s:%s:%s" % (f["file"], f["fn"], f["lhs"]), []).append(f)
@@ -106,7 +117,7 @@ def run(run):
             p.detail["confirmed_dynamically"] = p.signature in confirmed
 
     extra = {
-        "discard_sites": len(dfacts), "discard_sites_outside_discipline": sorted(bad_sites),
+        "discard_sites": len(dfacts), "conversions_not_fresh": conv_bad, "discard_sites_outside_discipline": sorted(bad_sites),
         "ast_writes_shared": sorted(ast_sites), "ast_writes_local_copy_or_fresh": len(local),
         "static_sites_confirmed_dynamically": sorted(confirmed),
     }
@@ -116,7 +127,7 @@ def run(run):
                              ["ast write %s:%d %s %s (%s)" % (f["file"], f["line"], f["fn"], f["lhs"], f["how"]) for f in (shared + local)[:2]] + run.cov["samples"]
     return run.finish(
         level="proof",
-        rule="static: every value.Discard call site of lib/query and lib/value and every assignment / copy / sort of lib/query reaching through a parser.* value, checked by kernel evaluation; dynamic: expressions generated over every scalar function of the Functions map (argument types found by probing), arithmetic, comparison, logic, CASE, IN, BETWEEN, LIKE, IS, ANY/ALL, casts, in SELECT / WHERE / GROUP BY+aggregates / DISTINCT / analytic functions / JOIN / subqueries / UNION, each evaluated twice as plain statement, WHILE body, user-defined function body and prepared statement over 240 rows at @@CPU 4, plus re-reading tables, cursor rows and variables after unrelated statements, alternately with and without Discard poisoning (a fixed corpus incl. COUNT(*) OVER, NTH_VALUE, ORDER BY / PARTITION BY on text columns runs first in both modes); non-trivial = distinct (kind, statement form, error?, result-length class)",
+        rule="static: every value.Discard call site of lib/query and lib/value and every assignment / copy / sort of lib/query reaching through a parser.* value, checked by kernel evaluation; dynamic: expressions generated over every scalar function of the Functions map (argument types found by probing), arithmetic, comparison, logic, CASE, IN, BETWEEN, LIKE, IS, ANY/ALL, casts, in SELECT / WHERE / GROUP BY+aggregates / DISTINCT / analytic functions / JOIN / subqueries / UNION, each evaluated twice as plain statement, WHILE body, user-defined function body and prepared statement over 240 rows at @@CPU 4, plus re-reading tables, cursor rows and variables after unrelated statements, alternately with and without Discard poisoning (a fixed corpus incl. COUNT(*) OVER, NTH_VALUE, ORDER BY / PARTITION BY on text columns, comma-separated FROM lists and functions over datetime-typed temp-view cells / variables runs first in both modes; the generated kinds include those two shapes as well); non-trivial = distinct (kind, statement form, error?, result-length class)",
         trusted_base=BASE_TRUST + [
             "extract/discardfacts: conservative syntactic facts (go/ast + go/types); callees are not analysed",
             "sync.Pool modelled as a free list (Csvq/Model/Pool.lean)"],
